@@ -356,6 +356,171 @@ fn eval_inputs(parties: &[usize], seedtag: u64) -> Vec<Vec<Vec<bool>>> {
     vec![mk(&mut || false), mk(&mut || true), mk(&mut || p.chance(1, 2)), mk(&mut || p.chance(1, 2))]
 }
 
+/// Circuits that declare huge sizes are handed to a child process (`c16-child`) that runs under
+/// RLIMIT_AS = 1 GiB and RLIMIT_CPU = 10 s and reports each stage before entering it, so that an
+/// abort or a runaway loop inside validate() (= not accepted, fine) can be told apart from one
+/// inside eval() after validate() accepted (= violation).
+pub fn child_main() -> i32 {
+    use std::io::{Read, Write};
+    let mut t = String::new();
+    if std::io::stdin().read_to_string(&mut t).is_err() {
+        return 2;
+    }
+    let Ok(w) = serde_json::from_str::<World>(&t) else { return 2 };
+    unsafe {
+        let lim = libc::rlimit { rlim_cur: 1 << 30, rlim_max: 1 << 30 };
+        libc::setrlimit(libc::RLIMIT_AS, &lim);
+        let cpu = libc::rlimit { rlim_cur: 10, rlim_max: 10 };
+        libc::setrlimit(libc::RLIMIT_CPU, &cpu);
+        let z = libc::rlimit { rlim_cur: 0, rlim_max: 0 };
+        libc::setrlimit(libc::RLIMIT_CORE, &z);
+    }
+    let say = |s: &str| {
+        let o = std::io::stdout();
+        let mut o = o.lock();
+        let _ = writeln!(o, "STAGE {s}");
+        let _ = o.flush();
+    };
+    seams::reset_world();
+    // rebuild the damaged message exactly as the parent did
+    let Some(msg) = damaged_message(&w) else { return 0 };
+    let small_inputs = |parties: &[usize]| circ_ref::total_bits(parties).map(|b| b <= MAX_EVAL_BITS).unwrap_or(false);
+    let seedtag = tag(w.program.as_ref().map(|p| p.src.as_str()).unwrap_or("raw"));
+    let run_reg = |c: &rc::Circuit| {
+        say("validate_start");
+        match guarded(|| c.validate()) {
+            Ok(Ok(())) => say("validate_ok"),
+            _ => {
+                say("validate_not_ok");
+                return;
+            }
+        }
+        if small_inputs(&c.input_regs) {
+            for iv in eval_inputs(&c.input_regs, seedtag) {
+                say("eval_start");
+                match guarded(|| c.eval(&iv)) {
+                    Ok(out) => say(&format!("eval_ok {}", out.len() == c.output_regs.len())),
+                    Err(m) => {
+                        say(&format!("eval_panicked {m}"));
+                        return;
+                    }
+                }
+            }
+        }
+        say("done");
+    };
+    let run_ssa = |c: &Circuit| {
+        say("validate_start");
+        match guarded(|| c.validate()) {
+            Ok(Ok(())) => say("validate_ok"),
+            _ => {
+                say("validate_not_ok");
+                return;
+            }
+        }
+        if small_inputs(&c.input_gates) {
+            for iv in eval_inputs(&c.input_gates, seedtag) {
+                say("eval_start");
+                match guarded(|| c.eval(&iv)) {
+                    Ok(out) => say(&format!("eval_ok {}", out.len() == c.output_gates.len())),
+                    Err(m) => {
+                        say(&format!("eval_panicked {m}"));
+                        return;
+                    }
+                }
+            }
+        }
+        say("done");
+    };
+    match w.channel {
+        Channel::JsonSsa => {
+            if let Ok(c) = serde_json::from_slice::<Circuit>(&msg) {
+                run_ssa(&c)
+            }
+        }
+        Channel::JsonReg => {
+            if let Ok(c) = serde_json::from_slice::<rc::Circuit>(&msg) {
+                run_reg(&c)
+            }
+        }
+        Channel::JsonTypeSsa | Channel::JsonTypeReg => match serde_json::from_slice::<CircuitType>(&msg) {
+            Ok(CircuitType::Ssa(c)) => run_ssa(&c),
+            Ok(CircuitType::Register(c)) => run_reg(&c),
+            Err(_) => {}
+        },
+        Channel::Bristol => {}
+    }
+    0
+}
+
+/// The message a world's receiver sees (honest message + faults), or None if there is no subject.
+fn damaged_message(w: &World) -> Option<Vec<u8>> {
+    let mut msg = if let Some(raw) = &w.raw_message {
+        raw.clone()
+    } else {
+        let (ssa, reg) = compile_both(w.program.as_ref()?, w.dedup).ok()?;
+        honest_message(&ssa, &reg, w.channel).ok()?
+    };
+    for f in &w.faults {
+        apply_fault(&mut msg, f);
+    }
+    Some(msg)
+}
+
+/// Parent side: run a world whose circuit declares huge sizes in a child and turn the stages it
+/// reported into findings.
+fn huge_via_child(w: &World, kind: &str, obs: &mut Obs) {
+    use std::io::Write;
+    bump(&mut obs.counters, "huge_circuits_run_in_child");
+    let Ok(exe) = std::env::current_exe() else { return };
+    let single = World { prior: vec![], ..w.clone() };
+    let Ok(mut child) = std::process::Command::new(exe)
+        .arg("c16-child")
+        .env("RUST_BACKTRACE", "0")
+        .stdin(std::process::Stdio::piped())
+        .stdout(std::process::Stdio::piped())
+        .stderr(std::process::Stdio::null())
+        .spawn()
+    else {
+        return;
+    };
+    let _ = child.stdin.take().unwrap().write_all(serde_json::to_string(&single).unwrap().as_bytes());
+    let Ok(out) = child.wait_with_output() else { return };
+    let text = String::from_utf8_lossy(&out.stdout).to_string();
+    let stages: Vec<&str> = text.lines().filter_map(|l| l.strip_prefix("STAGE ")).collect();
+    let accepted = stages.iter().any(|s| *s == "validate_ok");
+    let finished = stages.last().map(|s| *s == "done" || *s == "validate_not_ok").unwrap_or(true);
+    obs.executions += 1;
+    if !accepted {
+        bump(&mut obs.counters, "huge_not_accepted");
+        return;
+    }
+    bump(&mut obs.counters, "huge_accepted");
+    obs.accepted_damaged = true;
+    if let Some(p) = stages.iter().find_map(|s| s.strip_prefix("eval_panicked ")) {
+        obs.findings.push(Finding {
+            class: "eval_panicked".into(),
+            signature: format!("eval_panicked:{kind}@{}", panic_site(p)),
+            what: format!("validate() accepted a {kind} circuit with huge declared sizes but eval() on inputs of the declared shape panicked: {p}"),
+        });
+    } else if stages.iter().any(|s| *s == "eval_ok false") {
+        obs.findings.push(Finding {
+            class: "eval_wrong_output_count".into(),
+            signature: format!("eval_wrong_output_count:{kind}"),
+            what: "eval returned a different number of bits than declared outputs".into(),
+        });
+    } else if !finished && stages.last() == Some(&"eval_start") {
+        obs.findings.push(Finding {
+            class: "eval_panicked".into(),
+            signature: format!("eval_aborted:{kind}"),
+            what: format!(
+                "validate() accepted a {kind} circuit with huge declared sizes, then the process died inside eval() ({}; 1 GiB address space, 10 s CPU)",
+                out.status
+            ),
+        });
+    }
+}
+
 const MAX_VALIDATE_BITS: usize = 1 << 26;
 const MAX_EVAL_BITS: usize = 1 << 20;
 
@@ -572,7 +737,20 @@ fn honest_message(ssa: &Circuit, reg: &Option<rc::Circuit>, ch: Channel) -> Resu
     }
 }
 
-fn receive(ch: Channel, msg: &[u8], honest: bool, orig_hash: Option<u64>, obs: &mut Obs, seedtag: u64) {
+/// only circuits whose inputs can actually be supplied are worth a child process
+fn small_inputs(parties: &[usize]) -> bool {
+    circ_ref::total_bits(parties).map(|b| b <= MAX_EVAL_BITS).unwrap_or(false)
+}
+
+fn ssa_is_huge(c: &Circuit) -> bool {
+    circ_ref::total_bits(&c.input_gates).map(|b| b > MAX_VALIDATE_BITS).unwrap_or(true) || c.gates.len() > MAX_VALIDATE_BITS
+}
+
+fn reg_is_huge(c: &rc::Circuit) -> bool {
+    circ_ref::total_bits(&c.input_regs).map(|b| b > MAX_VALIDATE_BITS).unwrap_or(true) || c.max_reg_count > (1 << 28) || c.insts.len() > MAX_VALIDATE_BITS
+}
+
+fn receive(w: &World, ch: Channel, msg: &[u8], honest: bool, orig_hash: Option<u64>, obs: &mut Obs, seedtag: u64) {
     let mut note = |obs: &mut Obs, c: &CircuitType| {
         let h = value_hash(matches!(c, CircuitType::Register(_)) as u8, &flatten(c));
         if Some(h) != orig_hash {
@@ -584,7 +762,11 @@ fn receive(ch: Channel, msg: &[u8], honest: bool, orig_hash: Option<u64>, obs: &
             Ok(Ok(c)) => {
                 bump(&mut obs.counters, "deserialised");
                 note(obs, &CircuitType::Ssa(c.clone()));
-                inspect_ssa(&c, honest, obs, seedtag, true);
+                if ssa_is_huge(&c) && small_inputs(&c.input_gates) {
+                    huge_via_child(w, "ssa", obs);
+                } else {
+                    inspect_ssa(&c, honest, obs, seedtag, true);
+                }
                 obs.summary = "deserialised SSA".into();
             }
             Ok(Err(_)) => bump(&mut obs.counters, "deserialise_error"),
@@ -594,7 +776,11 @@ fn receive(ch: Channel, msg: &[u8], honest: bool, orig_hash: Option<u64>, obs: &
             Ok(Ok(c)) => {
                 bump(&mut obs.counters, "deserialised");
                 note(obs, &CircuitType::Register(c.clone()));
-                inspect_reg(&c, honest, obs, seedtag);
+                if reg_is_huge(&c) && small_inputs(&c.input_regs) {
+                    huge_via_child(w, "reg", obs);
+                } else {
+                    inspect_reg(&c, honest, obs, seedtag);
+                }
                 obs.summary = "deserialised register circuit".into();
             }
             Ok(Err(_)) => bump(&mut obs.counters, "deserialise_error"),
@@ -605,6 +791,8 @@ fn receive(ch: Channel, msg: &[u8], honest: bool, orig_hash: Option<u64>, obs: &
                 bump(&mut obs.counters, "deserialised");
                 note(obs, &ct);
                 match &ct {
+                    CircuitType::Ssa(c) if ssa_is_huge(c) && small_inputs(&c.input_gates) => huge_via_child(w, "ssa", obs),
+                    CircuitType::Register(c) if reg_is_huge(c) && small_inputs(&c.input_regs) => huge_via_child(w, "reg", obs),
                     CircuitType::Ssa(c) => inspect_ssa(c, honest, obs, seedtag, true),
                     CircuitType::Register(c) => inspect_reg(c, honest, obs, seedtag),
                 }
@@ -679,7 +867,7 @@ fn run_world_inner(w: &World) -> Obs {
         }
     }
     let honest = !changed && w.raw_message.is_none() && w.channel != Channel::Bristol;
-    receive(w.channel, &msg, honest, orig_hash, &mut obs, seedtag);
+    receive(w, w.channel, &msg, honest, orig_hash, &mut obs, seedtag);
     obs
 }
 
@@ -1011,6 +1199,15 @@ fn run_sweep(base: &World, acc: &mut Acc) {
         for index in 0..nn {
             for n in NAMES {
                 go(vec![MsgFault::NameReplace { index, with: n.to_string() }], acc);
+            }
+        }
+        // burst damage across two adjacent numbers (e.g. the party AND the index of one Input record)
+        let ntok_pairs = number_tokens(&msg).len();
+        for index in 0..ntok_pairs.saturating_sub(1).min(260) {
+            for a in ["0", "1", "2", "3"] {
+                for b2 in ["0", "1", "2", "3"] {
+                    go(vec![MsgFault::NumReplace { index, with: a.to_string() }, MsgFault::NumReplace { index: index + 1, with: b2.to_string() }], acc);
+                }
             }
         }
         // every object field missing (a receiver with lenient defaults would accept the message)
